@@ -187,6 +187,9 @@ def gen_graph(rng, L):
             a, o = rng.sample(range(n), 2)
             if o in anc(a) or a in anc(o) or (anc(a) | {a}) & (anc(o) | {o}) or len(par[a]) >= 2:
                 continue
+            below = [w for w in range(n) if w == a or a in anc(w)]
+            if any((anc(w) | {w}) & (anc(o) | {o}) for w in below):
+                continue
             ops.append(("mixin", a, o)); par[a].append(o)
         else:
             a = rng.randrange(n)
